@@ -6,6 +6,7 @@ import (
 	"log/slog"
 	"net"
 	"net/netip"
+	"slices"
 	"strconv"
 	"time"
 
@@ -270,6 +271,13 @@ func runSCIONServer(ctx context.Context, log *slog.Logger, mtrcs *scionServerMet
 			}
 			buffer.PushLayer(udpLayer.LayerType())
 
+			// The packet is forwarded with its end-to-end extension, which may
+			// follow a hop-by-hop extension; the latter is not forwarded.
+			hasE2E := slices.Contains(decoded, slayers.LayerTypeEndToEndExtn)
+			if !hasE2E {
+				e2eLayer = slayers.EndToEndExtn{}
+			}
+
 			if len(oob) != 0 {
 				tsOpt.OptType = scion.OptTypeTimestamp
 				tsOpt.OptData = oob
@@ -278,20 +286,20 @@ func runSCIONServer(ctx context.Context, log *slog.Logger, mtrcs *scionServerMet
 				tsOpt.OptDataLen = 0
 				tsOpt.ActualLength = 0
 
-				if scionLayer.NextHdr != slayers.End2EndClass {
-					e2eLayer = slayers.EndToEndExtn{}
-					e2eLayer.NextHdr = slayers.L4UDP
-					scionLayer.NextHdr = slayers.End2EndClass
-				}
 				e2eLayer.Options = append(e2eLayer.Options, tsOpt)
+				hasE2E = true
 			}
 
-			if scionLayer.NextHdr == slayers.End2EndClass {
+			if hasE2E {
+				e2eLayer.NextHdr = slayers.L4UDP
 				err = e2eLayer.SerializeTo(buffer, options)
 				if err != nil {
 					panic(err)
 				}
 				buffer.PushLayer(e2eLayer.LayerType())
+				scionLayer.NextHdr = slayers.End2EndClass
+			} else {
+				scionLayer.NextHdr = slayers.L4UDP
 			}
 
 			err = scionLayer.SerializeTo(buffer, options)
